@@ -295,6 +295,8 @@ SPECIAL = {
     'G2Prepared.miller_loop': MILLER_PROOF,
     'G1.add': ADD_PROOF.format(ns='G1', one='(1 : Fq)'),
     'G2.add': ADD_PROOF.format(ns='G2', one='Sm9.Fq2.one'),
+    'AffineG1.new': 'dtree_equiv Sm9.Gen.AffineG1.new Sm9.AffineG.new',
+    'AffineG2.new': 'dtree_equiv Sm9.Gen.AffineG2.new Sm9.AffineG.new',
     'G1.to_affine': 'to_affine_equiv Sm9.Gen.G1.to_affine',
     'G2.to_affine': 'to_affine_equiv Sm9.Gen.G2.to_affine',
 }
